@@ -5,9 +5,9 @@ From Y2 Require Import Proofs.SpecProofs Proofs.LatticeProofs Proofs.TablesProof
 From Coq Require Import Lia.
 Local Open Scope nat_scope.
 
-Lemma install_report L ms st :
-  o_report (install L ms st) = fold_left accumulate (map t_report (map (build_method L) ms)) rep0.
-Proof. unfold install. destruct (place_tables _ _ _). destruct (place_vtbls _ _ _). reflexivity. Qed.
+Lemma install_report stale L ms st :
+  o_report (install_with stale L ms st) = fold_left accumulate (map t_report (map (build_method L) ms)) rep0.
+Proof. unfold install_with. destruct (place_tables _ _ _). destruct (place_vtbls _ _ _). reflexivity. Qed.
 
 Section Report.
   Variables (R : registry) (L : lattice) (ms : list cmeth).
@@ -116,7 +116,7 @@ Section Report.
   Qed.
 End Report.
 
-Theorem report_correct R C : wf_registry R -> compile R = Ok C ->
+Theorem report_correct R stale C : wf_registry R -> compile_with stale R = Ok C ->
   (rp_ni (o_report C) <> 0 <-> spec_flag R is_nodef false = true) /\
   (rp_amb (o_report C) <> 0 <-> spec_flag R is_ambig false = true) /\
   (rp_cni (o_report C) <> 0 <-> spec_flag R is_nodef true = true) /\
@@ -124,12 +124,12 @@ Theorem report_correct R C : wf_registry R -> compile R = Ok C ->
   rp_cells (o_report C) = fold_right (fun t s => (if 1 <? length (t_groups t) then length (t_cells t) else 0) + s) 0 (o_tables C).
 Proof.
   intros Hwf HC.
-  destruct (compile_char R Hwf) as [L [ms [_ [_ [HC' [Hlo [Hms [Hlen Hok]]]]]]]].
+  destruct (compile_char R stale Hwf) as [L [ms [_ [_ [HC' [Hlo [Hms [Hlen Hok]]]]]]]].
   rewrite HC in HC'. inversion HC'; subst C. clear HC'.
   rewrite install_report.
   destruct (report_flags_correct R L ms Hwf Hlo Hms Hlen Hok) as [H1 [H2 [H3 [H4 H5]]]]. cbv zeta in *.
   repeat (split; [assumption|]).
-  rewrite H5. unfold install. destruct (place_tables _ _ _). destruct (place_vtbls _ _ _). cbn [o_tables].
+  rewrite H5. unfold install_with. destruct (place_tables _ _ _). destruct (place_vtbls _ _ _). cbn [o_tables].
   pose proof (lo_wf R L Hlo) as Hlw. clear - Hms Hlw. induction ms as [|cm l IH]; [reflexivity|]. cbn [map fold_right]. inversion Hms as [|? ? Hcm Hl]; subst.
   rewrite IH by assumption. f_equal.
   rewrite (to_len_groups L cm _ (build_method_table_ok L cm Hlw Hcm)). reflexivity.
